@@ -574,7 +574,7 @@ pub fn arb_defect() -> SBoxedStrategy<Defect> {
         1 => any::<bool>().prop_map(|end| Defect::FooterNoNewline { end }),
         1 => Just(Defect::FooterNul),
         1 => Just(Defect::FooterColon),
-        1 => proptest::sample::select(vec!["AAA", "AAA0BBB", "AAA0BBB,J1", "xyz", "AAA0 BBB", "AAA0BBB,M3.2.0/25,M11.1.0", "AAA0BBB,M3.2.0/-1,M11.1.0", "AAA0,J1,J2", " ", "\t", "UTC0\nUTC0"]).prop_map(|t| Defect::FooterGarbage { text: t.as_bytes().to_vec() }),
+        1 => proptest::sample::select(vec!["AAA", "AAA0BBB", "AAA0BBB,J1", "xyz", "AAA0 BBB", "AAA0BBB,M3.2.0/25,M11.1.0", "AAA0BBB,M3.2.0/-1,M11.1.0", "AAA0,J1,J2", " ", "\t", "UTC0\nUTC0", "AAA0BBB,M3.2.0/+2,M11.1.0", "AAA0BBB,M3.2.0/-0:30,M11.1.0", "\u{b}EST5", "EST5\u{a0}", "\u{2028}", "\u{85}EST5EDT,M3.2.0,M11.1.0", "EST5\u{3000}"]).prop_map(|t| Defect::FooterGarbage { text: t.as_bytes().to_vec() }),
     ];
     prop_oneof![6 => Just(Defect::None), 9 => header, 7 => body, 4 => footer].sboxed()
 }
